@@ -411,6 +411,31 @@ def run_c07_shim(it):
                 perm = list(range(nrows))
                 rng.shuffle(perm)
                 scripts.append((T, [(rng.randrange(T), r) for r in perm]))
+    # mode 1 (cell-granular): iteration order x a choice at every scheduling point (iteration request, before
+    # and after every kernel call, thread exit).  Always: strict round-robin (maximal interleaving), reversed
+    # round-robin, one-thread-first; plus seeded random choice sequences.
+    has_plan = hasattr(L, "shim_set_plan")
+    plans = []
+    if has_plan:
+        L.shim_set_plan.argtypes = [ctypes.c_int, ctypes.c_long, ctypes.POINTER(ctypes.c_long), ctypes.c_long,
+                                    ctypes.POINTER(ctypes.c_int)]
+        ncols = it["blk"][3] - it["blk"][2]
+        npoints = min(4000, 2 + nrows * (2 * max(1, ncols) + 2) * 2)
+        for T in it["shim_threads"]:
+            orders = [list(range(nrows)), list(range(nrows))[::-1]]
+            for order in orders:
+                plans.append((T, order, [k % T for k in range(1, npoints + 1)], "rr"))
+                plans.append((T, order, [(-k) % T for k in range(1, npoints + 1)], "rrr"))
+            for _ in range(it.get("shim_plans", it["shim_samples"])):
+                order = list(range(nrows))
+                rng.shuffle(order)
+                # random with runs: stay on a thread for a geometric number of points
+                ch = []
+                cur = rng.randrange(T)
+                while len(ch) < npoints:
+                    ch.extend([cur] * rng.choice((1, 1, 1, 2, 3, 5)))
+                    cur = rng.randrange(T)
+                plans.append((T, order, ch[:npoints], "rnd"))
     compact = []
     serial = None
     shown = 0
@@ -436,6 +461,23 @@ def run_c07_shim(it):
                                               (":shim-error-%d" % err) if err else "")
                 compact.append({"route": name, "vals": [dtwx.RAISED] if dtwx.is_raised(r) else enc_vals(c, r)})
             if len(compact) > 12:
+                break
+        shown1 = 0
+        for (T, order, ch, tag) in plans:
+            L.shim_set_plan(T, len(order), (ctypes.c_long * max(1, len(order)))(*order), len(ch),
+                            (ctypes.c_int * max(1, len(ch)))(*ch))
+            r = dtwx.guarded(lambda: _native_matrix(it, c, fn, layout=layout, lib=lib))
+            nrun += 1
+            err = L.shim_last_error()
+            deviant = dtwx.is_raised(r) or dtwx.is_raised(ref) or err != 0 or \
+                [repr(x) for x in r] != [repr(x) for x in ref]
+            if deviant or shown1 < 1:
+                shown1 += 1
+                name = "shimcell[T=%d,order=%s,%s%s]:%s%s" % (
+                    T, "".join(map(str, order)), tag, "" if tag != "rnd" else ":" + "".join(map(str, ch[:24])), fn,
+                    (":shim-error-%d" % err) if err else "")
+                compact.append({"route": name, "vals": [dtwx.RAISED] if dtwx.is_raised(r) else enc_vals(c, r)})
+            if len(compact) > 16:
                 break
     return {"id": it["id"], "lens": [], "idxs": [], "compact": compact, "square": [], "aidx": [], "events": [],
             "plans": [], "routes": [x["route"] for x in compact], "schedules": nrun}
